@@ -329,7 +329,9 @@ func runInterp() {
 			} else {
 				res.V, res.Sig, res.Detail = "viol", "interp:"+x.Kind+":first="+firstDollar, c.literal()+": "+x.Detail
 			}
-		case "go-build-error", "timeout", "crash":
+		case "timeout":
+			fatal("interp: case %d (%s) timed out", i, c.literal())
+		case "go-build-error", "crash":
 			res.V, res.Sig, res.Detail = "viol", "interp:"+x.Kind, c.literal()+": "+x.Detail
 		default:
 			fatal("interp: case %d (%s) has no result: %s %s", i, c.literal(), x.Kind, x.Detail)
